@@ -1518,8 +1518,10 @@ static void compile_expr(CG *cg, ASTNode *node) {
         break;
 
     case AST_STRING: {
-        uint32_t idx = nvm_add_string(cg->module, node->as.string_val,
-                                       (uint32_t)strlen(node->as.string_val));
+        char *text = nl_string_literal_value(node->as.string_val);
+        uint32_t idx = nvm_add_string(cg->module, text ? text : "",
+                                       (uint32_t)(text ? strlen(text) : 0));
+        free(text);
         emit_op(cg, OP_PUSH_STR, idx);
         break;
     }
